@@ -24,6 +24,8 @@
 (*   D11 a checkout dropped before its first poll drops a pre-popped idle   *)
 (*       connection                                                          *)
 (*   D13 push clears the marker for a non-shareable hand-back               *)
+(*   D17 a checkout told to wait for another checkout's attempt has no      *)
+(*       connector of its own: when released it fails with Unavailable      *)
 (* With AsBuilt = {} the specification describes the repaired code.         *)
 (***************************************************************************)
 EXTENDS Naturals, Sequences, FiniteSets, TLC
@@ -65,7 +67,7 @@ VARIABLES cfg,          \* [cap, maxIdle, it]
 
 vars == <<cfg, connecting, waiting, idle, chan, co, gc, gh, dl, conn, held, wr, req, woken, polled, rxw, dw, ndial, now, ev>>
 
-NoCo == [st |-> "none", o |-> 1, waiter |-> "NoPool", inner |-> "Done", h |-> NoH, d |-> 0, owner |-> FALSE, pure |-> FALSE, fin |-> "none"]
+NoCo == [st |-> "none", o |-> 1, waiter |-> "NoPool", inner |-> "Done", h |-> NoH, d |-> 0, owner |-> FALSE, pure |-> FALSE, standby |-> FALSE, fin |-> "none"]
 NoEv == [e |-> "Init", r |-> 0, c |-> 0, d |-> 0, o |-> 0, h2 |-> FALSE, ok |-> FALSE, kind |-> "", stage |-> ""]
 Ev(e) == [NoEv EXCEPT !.e = e]
 
@@ -172,19 +174,21 @@ Issue(r, o, h2) ==
                                          THEN Append(pw.rest, Entry(pw.h.c))     \* the pool keeps the shared handle
                                          ELSE pw.rest]
           /\ co' = [co EXCEPT ![r] = [st |-> "active", o |-> o, waiter |-> "Idle", inner |-> "Connected",
-                                      h |-> [c |-> pw.h.c, z |-> conn[pw.h.c].h2 /\ ~Has("D5")], d |-> 0, owner |-> FALSE, pure |-> FALSE, fin |-> "none"]]
+                                      h |-> [c |-> pw.h.c, z |-> conn[pw.h.c].h2 /\ ~Has("D5")], d |-> 0, owner |-> FALSE, pure |-> FALSE, standby |-> FALSE, fin |-> "none"]]
           /\ chan' = [chan EXCEPT ![r] = [st |-> "txdropped", h |-> NoH]]        \* tx dropped when checkout() returns
           /\ UNCHANGED <<waiting, connecting>>
      ELSE /\ idle' = [idle EXCEPT ![o] = pw.rest]
           /\ waiting' = [waiting EXCEPT ![o] = Append(@, r)]
           /\ chan' = [chan EXCEPT ![r] = [st |-> "open", h |-> NoH]]
           /\ IF o \in connecting
-             THEN /\ co' = [co EXCEPT ![r] = [st |-> "active", o |-> o, waiter |-> "Connecting", inner |-> "Waiting",
-                                              h |-> NoH, d |-> 0, owner |-> FALSE, pure |-> TRUE, fin |-> "none"]]
+             THEN \* waits for the attempt in flight; its own connector is only a fallback (Standby)
+                  /\ co' = [co EXCEPT ![r] = [st |-> "active", o |-> o, waiter |-> "Connecting",
+                                              inner |-> IF Has("D17") THEN "Waiting" ELSE IF cfg.cap THEN "DelayDrop" ELSE "Connecting",
+                                              h |-> NoH, d |-> 0, owner |-> FALSE, pure |-> TRUE, standby |-> ~Has("D17"), fin |-> "none"]]
                   /\ UNCHANGED connecting
              ELSE /\ co' = [co EXCEPT ![r] = [st |-> "active", o |-> o, waiter |-> "Idle",
                                               inner |-> IF cfg.cap THEN "DelayDrop" ELSE "Connecting",
-                                              h |-> NoH, d |-> 0, owner |-> h2, pure |-> FALSE, fin |-> "none"]]
+                                              h |-> NoH, d |-> 0, owner |-> h2, pure |-> FALSE, standby |-> FALSE, fin |-> "none"]]
                   /\ connecting' = IF h2 THEN connecting \cup {o} ELSE connecting
   /\ req' = [req EXCEPT ![r] = [st |-> "checkout", o |-> o, h2 |-> h2, stale |-> {c \in Dial : conn[c].st = "closed"}]]
   /\ ev' = [Ev("Issue") EXCEPT !.r = r, !.o = o, !.h2 = h2]
@@ -193,7 +197,7 @@ Issue(r, o, h2) ==
 \* The checkout resolved with handle h for request r: ExecuteRequest is handed to the inner
 \* service, then the Checkout is dropped (PinnedDrop).  p = pool state so far; cn2 = connection table so far.
 Handoff(r, h, p, cn2, fromWaiter) ==
-  LET delayed == co[r].inner = "DelayDrop" /\ fromWaiter      \* pre-empted with the connector still there
+  LET delayed == co[r].inner = "DelayDrop" /\ fromWaiter /\ ~co[r].standby    \* pre-empted with a started connector still there
       p2 == IF delayed THEN p ELSE CancelConnP(p, r)
   IN /\ held' = [held EXCEPT ![r] = h]
      /\ conn' = [cn2 EXCEPT ![h.c].busy = IF cn2[h.c].h2 THEN @ ELSE TRUE]
@@ -264,6 +268,18 @@ PollInner(r, p, rx) ==
                      IN /\ Handoff(r, [c |-> d, z |-> dl[d].h2], p2, cn2, FALSE)
                         /\ UNCHANGED <<gc, gh, dl, dw, ndial>>
 
+\* a released standby checkout became independent (owner if multiplexed) and polls its connector for the first time
+TookOver(r, p) ==
+  /\ ndial < MaxDial
+  /\ ndial' = ndial + 1
+  /\ dl' = [dl EXCEPT ![ndial + 1] = [o |-> co[r].o, h2 |-> req[r].h2, r |-> r]]
+  /\ dw' = [dw EXCEPT ![ndial + 1] = r]
+  /\ co' = [co EXCEPT ![r].d = ndial + 1, ![r].waiter = "Idle", ![r].standby = FALSE, ![r].pure = FALSE, ![r].owner = req[r].h2]
+  /\ Commit(p) /\ rxw' = [rxw EXCEPT ![r] = TRUE]
+  /\ woken' = Wake(p.wk, [woken EXCEPT ![r] = FALSE])
+  /\ ev' = [Ev("DialStart") EXCEPT !.r = r, !.d = ndial + 1]
+  /\ UNCHANGED <<gc, gh, conn, held, req>>
+
 \* ResponseFuture::poll while in the Checkout state
 PollBody(r) ==
   /\ polled' = [polled EXCEPT ![r] = TRUE]
@@ -277,6 +293,30 @@ PollBody(r) ==
             /\ woken' = [woken EXCEPT ![r] = FALSE]
             /\ ev' = [Ev("PollPending") EXCEPT !.r = r]
             /\ UNCHANGED <<connecting, waiting, idle, chan, co, gc, gh, dl, conn, held, wr, req, dw, ndial>>
+       [] co[r].waiter = "Connecting" /\ chan[r].st = "txdropped" /\ co[r].standby ->
+            \* released: the attempt it waited for went away. First look for an idle connection
+            \* (PoolInner::pop), else PoolInner::take_over
+            IF PopWalk(idle[co[r].o]).found
+            THEN LET pw == PopWalk(idle[co[r].o])
+                     c == pw.h.c
+                     p == [PS EXCEPT !.id[co[r].o] = IF conn[c].h2 THEN Append(pw.rest, Entry(c)) ELSE pw.rest]
+                 IN /\ Handoff(r, [c |-> c, z |-> conn[c].h2], p, conn, FALSE)
+                    /\ UNCHANGED <<gc, gh, dl, dw, ndial>>
+            ELSE IF co[r].o \in connecting
+            THEN \* another released checkout already replaced the attempt: wait for that one
+                 /\ waiting' = [waiting EXCEPT ![co[r].o] = Append(@, r)]
+                 /\ idle' = [idle EXCEPT ![co[r].o] = PopWalk(@).rest]          \* pop discarded closed / expired entries
+                 /\ chan' = [chan EXCEPT ![r] = [st |-> "open", h |-> NoH]]
+                 /\ rxw' = [rxw EXCEPT ![r] = TRUE]
+                 /\ woken' = [woken EXCEPT ![r] = FALSE]
+                 /\ ev' = [Ev("PollPending") EXCEPT !.r = r]
+                 /\ UNCHANGED <<connecting, co, gc, gh, dl, conn, held, wr, req, dw, ndial>>
+            ELSE \* it replaces the attempt itself: listens for returned connections and uses its connector
+                 LET p == [PS EXCEPT !.cn = IF req[r].h2 THEN @ \cup {co[r].o} ELSE @,
+                                     !.wt[co[r].o] = Append(@, r),
+                                     !.id[co[r].o] = PopWalk(@).rest,
+                                     !.ch[r] = [st |-> "open", h |-> NoH]]
+                 IN TookOver(r, p)
        [] co[r].waiter = "Idle" /\ chan[r].st = "open" ->
             IF Has("D1")
             THEN PollInner(r, [PS EXCEPT !.ch[r].st = "rxclosed"], [rxw EXCEPT ![r] = FALSE])   \* receiver dropped
@@ -305,7 +345,7 @@ Cancel(r) ==
           /\ Commit(DropPooled(PS, held[r]))
           /\ ev' = [Ev("Cancel") EXCEPT !.r = r, !.stage = "sending"]
           /\ UNCHANGED <<co, woken>>
-     ELSE LET delayed == co[r].inner = "DelayDrop"
+     ELSE LET delayed == co[r].inner = "DelayDrop" /\ ~co[r].standby
               p1 == RxCloseP(PS, r)
               p2 == IF delayed THEN p1 ELSE CancelConnP(p1, r)
               \* a connection popped at checkout time and never used: repaired code hands it back
@@ -485,7 +525,7 @@ C05pop == [][ev'.e = "Issue" /\ co'[ev'.r].h.c # 0 => IsOpen(co'[ev'.r].h.c)]_va
 
 \* C14 (a): a request still waiting for its own attempt does not stay Pending while a usable
 \* idle connection for its origin sits in the pool
-C14a == [][ev'.e \in {"PollPending", "DialStart"} /\ co[ev'.r].inner \in {"Connecting", "DelayDrop"}
+C14a == [][ev'.e \in {"PollPending", "DialStart"} /\ co[ev'.r].inner \in {"Connecting", "DelayDrop"} /\ ~co[ev'.r].standby
               => ~UsableIdle(req[ev'.r].o)]_vars
 
 \* C04 (iv): cancelling a request that never used a connection does not destroy a pooled connection
@@ -499,7 +539,12 @@ C04kept == [][\A c \in Dial : ev'.e = "HandBack" /\ ev'.ok /\ ev'.c = c => Live(
 AttemptInFlight(o) == \E k \in Req : co[k].owner /\ co[k].o = o /\ co[k].st \in {"active", "bg"}
 C04issue == [][ev'.e = "Issue" =>
                  /\ (UsableIdle(ev'.o) => co'[ev'.r].inner = "Connected")
-                 /\ (ev'.h2 /\ AttemptInFlight(ev'.o) /\ ~UsableIdle(ev'.o) => co'[ev'.r].inner = "Waiting")]_vars
+                 /\ (ev'.h2 /\ AttemptInFlight(ev'.o) /\ ~UsableIdle(ev'.o) => co'[ev'.r].pure)]_vars
+\* ... and an HTTP/2 dial never starts while another HTTP/2 attempt for the origin is in flight
+C04dial == [][ev'.e \in {"DialStart", "BgDialStart"} /\ req[ev'.r].h2 =>
+                ~\E k \in Req : k # ev'.r /\ co[k].owner /\ co[k].o = req[ev'.r].o /\ co[k].st \in {"active", "bg"}]_vars
+\* C01 (pool part): a request that is not cancelled fails only when its own connection attempt failed
+NoSpuriousError == [][ev'.e = "PollErr" => ev'.kind \in {"Connecting", "Handshaking"}]_vars
 
 \* C03: nobody is stranded (liveness under FairSpec) ...
 C03live == \A r \in Req : (req[r].st = "checkout") ~> (req[r].st # "checkout")
@@ -507,7 +552,7 @@ C03live == \A r \in Req : (req[r].st = "checkout") ~> (req[r].st # "checkout")
 \* will wake it, or is a pure waiter with a registered waker and a live owner attempt
 NoOrphan == \A r \in Req : req[r].st = "checkout" /\ co[r].st = "active" =>
    \/ ~polled[r] \/ woken[r]
-   \/ co[r].inner \in {"Connecting", "DelayDrop"} /\ co[r].d # 0 /\ Unresolved(co[r].d) /\ dw[co[r].d] = r
+   \/ co[r].inner \in {"Connecting", "DelayDrop"} /\ ~co[r].standby /\ co[r].d # 0 /\ Unresolved(co[r].d) /\ dw[co[r].d] = r
    \/ /\ co[r].waiter = "Connecting" /\ chan[r].st = "open" /\ rxw[r]
       /\ \E k \in Req : k # r /\ co[k].owner /\ co[k].o = co[r].o /\ co[k].st \in {"active", "bg"}
 \* a pure waiter always has a live owner
